@@ -1,5 +1,6 @@
 """C03 — parameter and %pattern% evaluation."""
-from vlib import core, gen
+import json
+from vlib import core, gen, behave, spec
 
 LEVEL = "proof"
 TEXT = "The chunker's acceptance criterion (even number of %), losslessness and chunk shape are theorems for all strings (induction over the character list); the factory order and token regexes are pinned to facts regenerated from the shipped wiring; model and implementation are run on every string up to a length bound plus random Unicode and must agree on chunks, tokens, emitted code and %+q quoting."
@@ -97,13 +98,81 @@ def run(ctx):
                 dist["with_ref"] += "ref" in ks
             elif s.count("%") % 2 == 0:
                 dist["rejected_token"] += 1
+    # level B: one generated container with many parameters; every GetParam result (type and value) and
+    # error is compared with the runtime model and judged by the documentation-level evaluator
+    lb = level_b(ctx)
+    violations += lb["violations"]
+    corr_fail += lb["corr_fail"]
+    dist.update(lb["dist"])
     return {
-        "evaluations": len(reqs), "distinct_nontrivial": len(nontrivial),
+        "evaluations": len(reqs) + lb["dist"]["getparam_checked"], "distinct_nontrivial": len(nontrivial), "programs": lb["dist"]["containers"],
         "rule": "all strings of length <= %d over %s plus %d seeded random Unicode strings; ops chunks/tokenize/quote on each; non-trivial = pattern contains at least one %%" % (L, "".join(gen.ALPHA_PATTERN), nrand),
         "samples": [{"op": "tokenize", "s": s} for s in cases[2000:2003]] + [{"op": "chunks", "s": cases[-1]}],
         "distribution": dist, "corr_fail": corr_fail, "violations": violations,
         "exhaustive": False,
     }
+
+
+def pattern_strings(ctx, n):
+    """patterns mixing literals, %%, references to every literal type and function calls"""
+    rng = ctx.rng
+    lits = ["", "x", "a b", "é𝄞", "q\"uote", "back\\slash", "nl\nline", "tab\t", "\x00ctl\x7f", "{}[]", "50%% off", "%%", "%%%%", "a%%b%%c", "  ", "'", "`", "$gontainer-not", "@not-a-service", "!valueless"]
+    refs = ["%i%", "%u%", "%f%", "%bt%", "%nl%", "%s%", "%empty%", "%uni%"]
+    fns = ['%env("VERIF_A")%', '%env("VERIF_MISSING", "dflt")%', '%envInt("VERIF_N")%', '%envInt("VERIF_MISSING", 5)%', '%env("VERIF_MISSING")%', '%envInt("VERIF_A")%', '%todo()%', '%todo("later")%']
+    out = list(lits) + refs + fns
+    for _ in range(n):
+        k = rng.randint(1, 4)
+        out.append("".join(rng.choice(rng.choice([lits, refs, refs, fns])) for _ in range(k)))
+    # escaping: every % doubled must evaluate to the original string
+    for _ in range(n // 2):
+        raw = gen.rand_unicode(rng, 10)
+        out.append(raw.replace("%", "%%"))
+    return out
+
+
+def level_b(ctx):
+    n = 150 if ctx.quick else 3000
+    pats = pattern_strings(ctx, n)
+    params = {"i": -5, "u": 2**63 + 1, "f": 1.25, "bt": True, "nl": None, "s": "str", "empty": "", "uni": "é𝄞\n"}
+    names = []
+    for k, p in enumerate(pats):
+        params["x%d" % k] = p
+        names.append("x%d" % k)
+    cfg = {"meta": {"pkg": "gen", "imports": {"fx": gen.FX}}, "parameters": params,
+           "services": {"holder": {"constructor": "fx.NewA", "arguments": ["%x0%"]}}}
+    ops = [["param", nm] for nm in list(params)]
+    out, err = behave.run_batch(ctx, [(cfg, ops)], tag="c03")
+    violations, corr_fail = [], []
+    dist = {"containers": 0, "getparam_checked": 0, "getparam_errors": 0, "escaped_roundtrips": 0}
+    if err:
+        return {"violations": [{"sig": "probe-build", "what": err}], "corr_fail": [], "dist": dist}
+    rec = out[0]
+    if not rec["accepted"]:
+        return {"violations": [{"sig": "valid-patterns-rejected", "what": rec["cli_out"][-600:], "files": rec["files"]}], "corr_fail": [], "dist": dist}
+    dist["containers"] = 1
+    if rec["impl"] is None:
+        return {"violations": [{"sig": "probe-crash", "what": "%r" % (rec.get("impl_crash"),)}], "corr_fail": [], "dist": dist}
+    if rec["model"] is not None:
+        for x in behave.compare_script(rec["impl"], rec["model"])[:5]:
+            corr_fail.append({"op": "rt:param", "param": ops[x[0]][1] if isinstance(x[0], int) else x[0], "pattern": params.get(ops[x[0]][1]) if isinstance(x[0], int) else None, "impl": x[1], "model": x[2]})
+    for (op, nm), r in zip(ops, rec["impl"]):
+        dist["getparam_checked"] += 1
+        want = spec.eval_param(cfg, nm)
+        raw = params[nm]
+        if want[0] == "err":
+            dist["getparam_errors"] += 1
+            if "err" not in r:
+                violations.append({"sig": "getparam-masks-error", "what": "GetParam(%s) for %r returns %r but the documented evaluation fails" % (nm, raw, r), "pattern": raw})
+            elif isinstance(raw, str) and "%" in raw and not any(tok in r["err"] for tok in [t for t in raw.split("%")[1::2] if t]) and "todo" not in raw:
+                violations.append({"sig": "error-does-not-name-token", "what": "error of GetParam(%s) does not name the failing token of %r: %s" % (nm, raw, r["err"]), "pattern": raw})
+        else:
+            if "ok" not in r:
+                violations.append({"sig": "getparam-unexpected-error", "what": "GetParam(%s) for %r fails: %r" % (nm, raw, r), "pattern": raw})
+            elif not spec.prim_matches(want[1], r["ok"]):
+                violations.append({"sig": "getparam-value", "what": "GetParam(%s) for %r returns %r, documented value %r" % (nm, raw, r["ok"], want[1]), "pattern": raw})
+            if isinstance(raw, str) and raw.replace("%%", "").count("%") == 0 and "%%" in raw:
+                dist["escaped_roundtrips"] += 1
+    return {"violations": violations, "corr_fail": corr_fail, "dist": dist}
 
 
 def replay(ctx, payload):
